@@ -166,18 +166,18 @@ def run(ck):
         ck.check(all(p.outcome == "raise" and p.value.exc_name == "TypeError" for p in paths), "C18.R3", "refuses non-evaluator", isite, "a callback that is not an evaluator is accepted")
     for crit, meth in (("relative", "_relative_change"), ("absolute", "_absolute_change"), ("variance", "_variance_scaled_abs_change")):
         with ck.guard("C18.R3", "table/" + crit):
-            p = single(paths_of(prog, lambda it: make_es(it, prog, "observable", crit)[0], stubs=STUBS), crit)
-            d = p.value.inst.attrs.get("deviation")
-            ck.check(isinstance(d, VFunc) and d.func is not None and d.func.name == meth, "C18.R3", "table/" + crit, isite, "criterion %r is mapped to %s" % (crit, getattr(getattr(d, "func", None), "name", d)))
+            for p in returning(paths_of(prog, lambda it: make_es(it, prog, "observable", crit)[0], stubs=STUBS), crit):
+                d = p.value.inst.attrs.get("deviation")
+                ck.check(isinstance(d, VFunc) and d.func is not None and d.func.name == meth, "C18.R3", "table/" + crit, isite, "criterion %r is mapped to %s" % (crit, getattr(getattr(d, "func", None), "name", d)))
     with ck.guard("C18.R3", "VarianceBasedEarlyStopping"):
-        p = single(paths_of(prog, lambda it: make_es(it, prog, "observable", None, cls="VarianceBasedEarlyStopping")[0], stubs=STUBS), "vbes")
-        o = p.value
-        cr = o.inst.attrs.get("criterion")
-        ck.check(isinstance(cr, VConst) and cr.value == "variance", "C18.R3", "VarianceBasedEarlyStopping -> variance", prog.cls("VarianceBasedEarlyStopping").find_method("__init__").site(),
-                 "the deprecated class does not select the variance criterion")
-        ck.check(prog.cls("VarianceBasedEarlyStopping").find_method("on_epoch_end") is es.methods["on_epoch_end"], "C18.R3", "VarianceBasedEarlyStopping inherits on_epoch_end", isite, "the deprecated class overrides on_epoch_end")
-        paths = paths_of(prog, lambda it: make_es(it, prog, "metric", None, cls="VarianceBasedEarlyStopping")[0], stubs=STUBS)
-        ck.check(all(p.outcome == "raise" and p.value.exc_name == "TypeError" for p in paths), "C18.R3", "VarianceBasedEarlyStopping refuses MetricEvaluator", isite, "variance criterion accepted for plain metrics")
+        for p in returning(paths_of(prog, lambda it: make_es(it, prog, "observable", None, cls="VarianceBasedEarlyStopping")[0], stubs=STUBS), "vbes"):
+            o = p.value
+            cr = o.inst.attrs.get("criterion")
+            ck.check(isinstance(cr, VConst) and cr.value == "variance", "C18.R3", "VarianceBasedEarlyStopping -> variance", prog.cls("VarianceBasedEarlyStopping").find_method("__init__").site(),
+                     "the deprecated class does not select the variance criterion")
+            ck.check(prog.cls("VarianceBasedEarlyStopping").find_method("on_epoch_end") is es.methods["on_epoch_end"], "C18.R3", "VarianceBasedEarlyStopping inherits on_epoch_end", isite, "the deprecated class overrides on_epoch_end")
+            paths = paths_of(prog, lambda it: make_es(it, prog, "metric", None, cls="VarianceBasedEarlyStopping")[0], stubs=STUBS)
+            ck.check(all(p.outcome == "raise" and p.value.exc_name == "TypeError" for p in paths), "C18.R3", "VarianceBasedEarlyStopping refuses MetricEvaluator", isite, "variance criterion accepted for plain metrics")
     ck.require_min("C18.R1", 14)
     ck.require_min("C18.R2", 30)
     ck.require_min("C18.R3", 10)
